@@ -27,6 +27,10 @@ class Other(Exception):
     pass
 
 
+class SubBoom(Boom):
+    """a subclass of a listed exception class is listed too (retry_on is an isinstance test)"""
+
+
 RETRY_ON = {'none': None, 'boom': (Boom,), 'boom+timeout': (Boom, TimeoutError), 'empty': ()}
 
 
@@ -65,7 +69,7 @@ def t_retry(ctx):
                 return ('ok', i)
             if o == 'listed':
                 c['how'] = 'listed'
-                c['exc'] = Boom(i)
+                c['exc'] = (SubBoom if ctx.cfg.get('sub') else Boom)(i)
                 raise c['exc']
             c['how'] = 'unlisted'
             c['exc'] = Other(i)
@@ -172,6 +176,7 @@ def jobs(tier):
         out.append(Job('C19', 'r.retry', t_retry, dict(rmax=1, bf='1/2', retry_on='none'), witnesses=('retried',)))
         out.append(Job('C19', 'r.retry', t_retry, dict(rmax=2, bf='1', retry_on='boom'), witnesses=('retried',)))
         out.append(Job('C19', 'r.retry', t_retry, dict(rmax=1, bf='1', retry_on='empty')))
+        out.append(Job('C19', 'r.retry', t_retry, dict(rmax=1, bf='1', retry_on='boom', sub=True), witnesses=('retried',)))
         out.append(Job('C19', 'r.retry', t_retry, dict(rmax=1, bf='2', retry_on='boom+timeout', cancel=True),
                        witnesses=('cancelled in flight', 'finished before cancel')))
     else:
@@ -182,4 +187,5 @@ def jobs(tier):
         for ro in RETRY_ON:
             for r in (0, 1, 2):
                 out.append(Job('C19', 'r.retry', t_retry, dict(rmin=r, rmax=r, bf='2', retry_on=ro, cancel=True), max_paths=20000))
+        out.append(Job('C19', 'r.retry', t_retry, dict(rmin=1, rmax=2, bf='1', retry_on='boom+timeout', sub=True), witnesses=('retried',), max_paths=20000))
     return out
